@@ -791,6 +791,11 @@ func runE2E(raw json.RawMessage, seed int64, rec *Rec) {
 			retained = append(retained, m.Value)
 			cMsgs = append(cMsgs, st.table.ID(m.Value))
 		}
+		if sc.Tid%4 == 1 {
+			// a loop that asks again after the end (ordinary user code): the metadata of the call does not change
+			_, _ = bs.Receive()
+			_, _ = bs.Receive()
+		}
 		chdr, ctrl = bs.ResponseHeader(), bs.ResponseTrailer()
 		if early != nil {
 			chdr = early
